@@ -684,6 +684,13 @@ fn merge_selection_set_into_selection_map<TCompilationProfile: CompilationProfil
     }
 
     select_typename_and_id_fields_in_merged_selection(db, parent_map, parent_object_entity);
+
+    // A selection set that needs no server field (e.g. one that only selects __link) is
+    // printed as `{ __typename }` in the query text. Select it here, so that the
+    // normalization AST contains it as well and the runtime creates the record.
+    if parent_map.is_empty() {
+        maybe_add_typename_selection(parent_map);
+    }
 }
 
 #[expect(clippy::too_many_arguments)]
